@@ -55,8 +55,9 @@ class DevA(Driver):
             number=properties.NumberVector("V2", elements=dict(first=properties.Number("A"), second=properties.Number("B"))),
             light=properties.LightVector("V22", elements=dict(first=properties.Light("A"))),
             switch=properties.SwitchVector(
-                "V3", enabled=False, rule="AnyOfMany", elements=dict(first=properties.Switch("A"), second=properties.Switch("B"))
+                "V3", rule="AnyOfMany", elements=dict(first=properties.Switch("A"), second=properties.Switch("B"))
             ),
+            blob=properties.BLOBVector("V4", elements=dict(first=properties.BLOB("A"), second=properties.BLOB("B"))),
         ),
     )
 
@@ -100,6 +101,9 @@ def build_drivers(it, p, names=(("DevA", "DEVA"), ("DevB", "DEVB")), router=None
     it.opts["inline"] = pol
     it.opts["instantiate"] = lambda ci: ci.module.name.startswith("indi.device.") or ci.module.name == SYN_DEVICES_MOD
     it.opts["max_depth"] = 16
+    it.opts["call_may_raise"] = None
+    it.opts["assert_forks"] = False
+    it.opts.pop("max_for", None)
     fr = Frame(None, mod, {})
     out = {}
     try:
